@@ -24,8 +24,8 @@ pub fn world() -> World {
         ],
         rule: "one run = one handler (drawn background) and a history of 2..12 draws over a pool of 2..5 images (6..40 rows, 1..40 columns; few-colour images, many-colour images, cropped views, equal pixels under different allocations) with a sink that may fail at a drawn byte; non-trivial = an eviction or a re-draw of an image happened; distinct = distinct hash of (image classes, draw order, failure points)",
         runs: |_, tier| match tier {
-            Tier::Quick => 40_000,
-            Tier::Thorough => 1_500_000,
+            Tier::Quick => 60_000,
+            Tier::Thorough => 3_000_000,
         },
         features: &[],
     }
